@@ -26,7 +26,8 @@ COMP = ["ampere_sgemm_128x64_nn", "void at::native::vectorized_elementwise_kerne
         "void cutlass::Kernel<cutlass_80_tensorop_s1688gemm>(Params)", "triton_poi_fused_add_0", "sm80_xmma_gemm_f32f32"]
 COMM = ["ncclKernel_AllReduce_RING_LL_Sum_float(ncclWorkElem)", "ncclDevKernel_AllGather_RING_LL(ncclDevComm*, unsigned long)"]
 OTHERK = ["fooSync_kernel", "barMemcpyHelper"]          # kernel names of type OTHER
-CPY = ["Memcpy HtoD (Pageable -> Device)", "Memcpy DtoH (Device -> Pinned)", "Memcpy DtoD (Device -> Device)"]
+CPY = ["Memcpy HtoD (Pageable -> Device)", "Memcpy HtoD (Pinned -> Device)", "Memcpy DtoH (Device -> Pinned)", "Memcpy DtoH (Device -> Pageable)",
+       "Memcpy DtoD (Device -> Device)"]     # several raw names share one copy type
 OPS = ["aten::mm", "aten::add", "aten::linear", "aten::copy_", "aten::empty", "aten::to", "aten::relu", "aten::addmm"]
 BWD = ["autograd::engine::evaluate_function: MmBackward0", "autograd::engine::evaluate_function: AddBackward0",
        "autograd::engine::evaluate_function: torch::autograd::AccumulateGrad"]
